@@ -306,9 +306,10 @@ def snippet(sub, case):
 
 
 def selftest():
-    w1 = work(lambda: yaml.safe_load('- a\n' * 100))
-    w2 = work(lambda: yaml.safe_load('- a\n' * 200))
-    assert w1 > 1000 and 1.7 < w2 / w1 < 2.3, (w1, w2)
+    def lin(n):
+        return lambda: [len(str(i)) for i in range(n)]
+    w1, w2 = work(lin(500)), work(lin(1000))
+    assert w1 > 400 and 1.8 < w2 / w1 < 2.2, (w1, w2)
 
     def quad():
         x = []
